@@ -86,8 +86,8 @@ def view : Op → Op
   | .dropTable name schema ie comment extra rev =>
     .dropTable name schema ie comment extra (some (dropTableToTable name schema comment extra rev))
   | .dropColumn table schema column kw rev =>
-    let c := dropColumnToColumn column rev
-    .dropColumn table schema c.name kw (some c)
+    -- `column_name` is what the renderer and `op.drop_column()` use; `to_column()` is what `invoke` hands to the impl
+    .dropColumn table schema column kw (some (dropColumnToColumn column rev))
   | .dropIndex name table schema ie kw rev =>
     let ix := dropIndexToIndex name table schema kw rev
     .dropIndex name table schema ie [("unique", if ix.unique then "True" else "False")] (some ix)
@@ -133,7 +133,10 @@ def Alter.complete (a : Alter) : Bool :=
 
 mutual
 def reversible : Op → Bool
-  | .dropColumn _ _ _ _ rev => rev.isSome
+  | .dropColumn _ _ column _ rev =>
+    match rev with
+    | some c => c.name == column          -- the stored column is the one the op names
+    | none => false
   | .dropConstraint _ _ _ ty rev =>
     match rev with
     | some r => ty == some r.kind
